@@ -177,6 +177,36 @@ fn collections(seed: u64, rep: &mut Report) {
         if b.bits.len() != size || (c.next.get() as usize) < size {
             rep.violation("C18/collection/Bitstring/size", || json!({"requested": size, "delivered": b.bits.len(), "element_generator_calls": c.next.get()}));
         }
+        // every position of a random bitstring is a draw of its own: over 256 bitstrings each
+        // position shows both values (a position stuck at one value would have to survive 256
+        // fair draws: 2^-255 per position)
+        if matches!(size, 1 | 2 | 31 | 32 | 33 | 63 | 64 | 65 | 127 | 128 | 129 | 191 | 192 | 193 | 256 | 257 | 1000 | 1024 | 1025 | 4097) {
+            let mut seen_true = vec![false; size];
+            let mut seen_false = vec![false; size];
+            let mut seen_true_p = vec![false; size];
+            let mut seen_false_p = vec![false; size];
+            let mut sizes_ok = true;
+            // an honest stream (the shared one may start with a scripted constant prefix)
+            let mut fair = TraceRng::new(mix(seed, 0xb175 + size as u64));
+            for _ in 0..256 {
+                let a = Bitstring::random(size, &mut fair);
+                let b = Bitstring::random_with_probability(size, 0.5, &mut fair);
+                sizes_ok &= a.bits.len() == size && b.bits.len() == size;
+                for (i, x) in a.bits.iter().enumerate().take(size) {
+                    if *x { seen_true[i] = true } else { seen_false[i] = true }
+                }
+                for (i, x) in b.bits.iter().enumerate().take(size) {
+                    if *x { seen_true_p[i] = true } else { seen_false_p[i] = true }
+                }
+            }
+            rep.eval();
+            rep.count("collection:Bitstring::random/every-position-drawn");
+            let stuck: Vec<usize> = (0..size).filter(|i| !(seen_true[*i] && seen_false[*i])).collect();
+            let stuck_p: Vec<usize> = (0..size).filter(|i| !(seen_true_p[*i] && seen_false_p[*i])).collect();
+            if sizes_ok && (!stuck.is_empty() || !stuck_p.is_empty()) {
+                rep.violation("C18/collection/Bitstring::random/position-never-drawn", || json!({"requested": size, "bitstrings": 256, "positions_with_a_single_value_in_all_of_them (random)": stuck.iter().take(20).collect::<Vec<_>>(), "positions_with_a_single_value (random_with_probability 0.5)": stuck_p.iter().take(20).collect::<Vec<_>>()}));
+            }
+        }
         let rb = Bitstring::random(size, &mut rng);
         let rp = Bitstring::random_with_probability(size, 0.3, &mut rng);
         rep.eval();
